@@ -153,6 +153,40 @@ uint8_t g_w[11];
 	((d)->c ==                                \
 	    (((s)->c == NULL) ? (char *) NULL     \
 	                      : (d)->u_buffer + ((s)->c - (s)->u_buffer)))
+/* constant bound used inside quantifiers of capped (Pb) contracts */
+#ifdef URL_STR_CAP
+#define URL_QCAP URL_STR_CAP
+#else
+#define URL_QCAP 16
+#endif
+
+/* ---- strings handed to functions that may be called on the middle of a
+ * buffer (canonify on the path part of the URL storage): the string is what
+ * lies between the pointer and the end of ITS OBJECT.  Written with
+ * OBJECT_SIZE/POINTER_OFFSET so that the same precondition can be assumed
+ * (enforce: a fresh object of any size) and asserted (replace: pointer into
+ * u_static or a heap block). */
+#define STR_ROOM(p) \
+	((size_t) __CPROVER_OBJECT_SIZE(p) - (size_t) __CPROVER_POINTER_OFFSET(p))
+/* a terminator exists within the first cap+1 bytes (cap: constant) */
+#define STR_TERMINATED_WITHIN(p, cap, v) \
+	__CPROVER_exists { size_t v; (v <= (cap)) && (v < STR_ROOM(p) && (p)[v] == 0) }
+/* no terminator in p[0..k] (k < cap) */
+#define STR_BEFORE_END(p, k, cap, v) \
+	__CPROVER_forall { size_t v; (v <= (cap)) ==> ((v <= (k)) ==> (p)[v] != 0) }
+/* no '?' or '#' in p[0..k]: index k belongs to the path part */
+#define STR_IN_PATH(p, k, cap, v) \
+	__CPROVER_forall { size_t v; (v <= (cap)) ==> ((v <= (k)) ==> ((p)[v] != '?' && (p)[v] != '#')) }
+
+/* RFC 3986 2.3 unreserved characters */
+#define URI_UNRESERVED(c)                                              \
+	(((c) >= 'A' && (c) <= 'Z') || ((c) >= 'a' && (c) <= 'z') ||   \
+	    ((c) >= '0' && (c) <= '9') || (c) == '-' || (c) == '.' ||  \
+	    (c) == '_' || (c) == '~')
+#define URI_UPHEX(c) (((c) >= '0' && (c) <= '9') || ((c) >= 'A' && (c) <= 'F'))
+#define URI_HEXV(c) ((c) <= '9' ? (c) - '0' : (c) - 'A' + 10)
+#define URI_SEG_END(c) ((c) == 0 || (c) == '/' || (c) == '?' || (c) == '#')
+
 /* ---- scheme table (url.c nni_schemes[]: 35 entries, longest 8 chars) ---- */
 #define URL_NSCHEMES 35
 #define URL_SCHEME_MAXLEN 8
